@@ -103,19 +103,31 @@ inductive ReadRes where
   | wait
   deriving DecidableEq, Repr
 
-/-- The `except` clauses around `readuntil` in `read`, in source order:
-`LimitOverrunError → TransportReadError`, `IncompleteReadError → TransportReadError`,
-`OSError → TransportFailedError`; anything else propagates. -/
-def mapReadExn (c : PyExn) : TExn :=
-  if pyCaught c (clause Gen.excStreamRead 0) then .lib .transportRead
-  else if pyCaught c (clause Gen.excStreamRead 1) then .lib .transportRead
-  else if pyCaught c (clause Gen.excStreamRead 2) then .lib .transportFailed
-  else .foreign c
+/-- The library error an `except` clause of `read` raises, by the class name the translator found in its `raise`. -/
+def clauseErr : String → Option TErr
+  | "TransportError" => some .transportError
+  | "TransportReadError" => some .transportRead
+  | "TransportFailedError" => some .transportFailed
+  | _ => none
 
-/-- The `except` clause around `read.decode()`: `UnicodeDecodeError → TransportReadError`. -/
-def decodeExn : TExn :=
-  if pyCaught .UnicodeDecodeError (clause Gen.excStreamRead 3) then .lib .transportRead
-  else .foreign .UnicodeDecodeError
+/-- One `try` statement of `read` (its clauses in source order, each with the library error it raises) applied to
+an exception of class `c`: the first clause that catches it decides; a clause that does something else than raising
+a library transport error lets the model say "another exception". -/
+def mapBlock (block : List (List PyExn × String)) (c : PyExn) : TExn :=
+  match block.find? fun cl => pyCaught c cl.1 with
+  | some cl =>
+    match clauseErr cl.2 with
+    | some e => .lib e
+    | none => .foreign c
+  | none => .foreign c
+
+/-- The `try` around `readuntil` in `read` (first block of the generated table; today
+`LimitOverrunError → TransportReadError`, `IncompleteReadError → TransportReadError`, `OSError → TransportFailedError`);
+anything else propagates. -/
+def mapReadExn (c : PyExn) : TExn := mapBlock (Gen.excStreamReadBlocks.getD 0 []) c
+
+/-- The `try` around `read.decode()` (second block; today `UnicodeDecodeError → TransportReadError`). -/
+def decodeExn : TExn := mapBlock (Gen.excStreamReadBlocks.getD 1 []) .UnicodeDecodeError
 
 /-- From the outcome of `readuntil` to the outcome of `read`. -/
 def finish (decodeUtf8 : Bytes → Option Str) : Raw → ReadRes
